@@ -123,8 +123,12 @@ class Builder:
             objs = []
             for name in sorted(sources):  # headers first: they only have to be there
                 if not name.endswith(".cc"):
+                    os.makedirs(os.path.dirname(os.path.join(src, name)), exist_ok=True)
                     with open(os.path.join(src, name), "w", encoding="utf-8") as f:
                         f.write(sources[name])
+            # headers of the tree that exist only in the simulated machine (a unit added between
+            # two invocations): the multi-header build finds them next to the sources
+            extra_inc = ["-I", src] if variant != "single" and any("/" in n for n in sources) else []
             for name in sorted(sources):
                 if not name.endswith(".cc"):
                     continue
@@ -136,7 +140,7 @@ class Builder:
                 # with one exception that cannot touch Au: -Werror=format.  Only the probe itself
                 # calls printf; this guards the probe generator against passing a wrong type
                 # through varargs, which would be undefined behaviour inside the oracle.
-                cmd = [cxx, "-std=" + tc[1], tc[2] if len(tc) > 2 else "-O0", "-Wformat", "-Werror=format", "-I", inc, "-c", p, "-o", o]
+                cmd = [cxx, "-std=" + tc[1], tc[2] if len(tc) > 2 else "-O0", "-Wformat", "-Werror=format", "-I", inc] + extra_inc + ["-c", p, "-o", o]
                 r = subprocess.run(cmd, cwd=src, stdout=subprocess.PIPE, stderr=subprocess.STDOUT, timeout=COMPILE_TIMEOUT_S)
                 if r.returncode != 0:
                     return {"ok": False, "stage": "compile:" + name, "diag": _head(r.stdout, d), "stdout": "", "rc": None}
